@@ -6,14 +6,14 @@
   `JV` are the defining value semantics).  Helper lemmas: Gojq/Proofs/Heap*.lean.
 
   Scope: path elements are object keys and array indices (any sign, extension with `null`, `null`
-  turned into a container).  SLICE path elements are not in the model (a slice is a second header onto
-  a cell; labelled trees cannot say that): for them the property is covered by the search oracle
-  harness/c02oracle only.  `_modify` steps whose update query is `empty` (deferred `delpaths`) are
-  covered by `delpaths_…` below at value level and by the oracle; see `modify_refines_statement`.
+  turned into a container); update queries may yield an output or be `empty` (deferred `delpaths`).
+  SLICE path elements are not in the model (a slice is a second header onto a cell; labelled trees
+  cannot say that): for them the property is covered by the search oracle harness/c02oracle only.
 -/
 import Gojq.Proofs.HeapChain
 import Gojq.Proofs.HeapAlgebra
 import Gojq.Proofs.HeapDel
+import Gojq.Proofs.HeapFull
 namespace Gojq.C02Heap
 open Gojq Gojq.Heap
 
@@ -59,26 +59,38 @@ theorem invariant_preserved (q : T → Nat → T × Nat) (hq : QOK q) (v : T) (A
   obtain ⟨i1, hc, hl, x, hx, hs⟩ := modifyStep_sound q hq v A f p v' A' f' log h inv
   exact ⟨i1, applyLog_id log v' hc, hl, x, hx, getp_abs p v x hx, hs⟩
 
-/-- The part of C02 item 4 that the model can express: for every list of key/index paths and every
-    update query that yields an output at each of them, `_modify` started with an empty allocator
-    computes the defining reduction.  ⟦full⟧ C02.4 additionally quantifies over SLICE paths and over
-    queries that are `empty` at some paths (the deferred `delpaths`): outside the model, see the header. -/
+/-- C02 item 4 as far as the model can express it: `_modify` in full — for every list of key/index
+    paths, every update query that at each path either yields an output or is `empty` (the path is then
+    collected and all collected paths are deleted at the end by `_delpaths`), started with an empty
+    allocator on a value without placeholders whose objects have strictly increasing keys — computes the
+    defining reduction `modifyVFull` (jq 1.7's `_modify`: first output stored with `setpath`, deferred
+    `delpaths`).  ⟦full⟧ C02.4 additionally quantifies over SLICE path elements: outside the model. -/
 def modify_refines_statement : Prop :=
-  ∀ (q : T → Nat → T × Nat) (qv : JV → JV), QOK q → (∀ x f, abs (q x f).1 = qv (abs x)) →
-    ∀ (ps : List Path) (v : T) (f : Nat) (r : T × List Nat × Nat), (∀ j ∈ v.ids, j < f) →
-      modifyAll q ps (v, [], f) = some r → modifyV qv ps (abs v) = some (abs r.1)
+  ∀ (q : T → Nat → Option (T × Nat)) (qv : JV → Option JV), QOK' q →
+    (∀ x f, (q x f).map (fun r => abs r.1) = qv (abs x)) →
+    (∀ y z, JV.wf y = true → qv y = some z → JV.wf z = true) →
+    ∀ (ps : List Path) (v : T) (f : Nat) (r : T), (∀ j ∈ v.ids, j < f) → holeFree v → JV.wf (abs v) = true →
+      modifyFull q ps v f = some r → modifyVFull qv ps (abs v) = some (abs r)
 
 /-- **`_modify` refines its defining reduction** — `modify_refines_partial`: for every list of
     key/index paths, in any order and however they overlap (ancestors, descendants, equal paths, paths
-    through values produced by earlier updates), and every update query that yields an output at each
-    path and builds it from parts of its input and containers of its own (duplicating, re-embedding,
-    replacing — `QOK`), the allocator-based reduction started with an empty allocator returns exactly
-    `reduce path(paths) as $p (.; setpath($p; getpath($p) | q))` computed on plain values.
-    Gap to ⟦full⟧ C02.4: slice paths and `empty` outputs (the deferred `delpaths`) are outside the
-    model; within the model this IS `modify_refines_statement`. -/
+    through values produced by earlier updates, missing keys, negative and out-of-range indices), and
+    every update query that builds its output from parts of its input and containers of its own
+    (duplicating, re-embedding, replacing, dropping — `QOK'`) or is `empty`, the allocator-based
+    reduction with its in-place writes, its `release` before each query and its final mark-then-sweep
+    `_delpaths` returns exactly what the reduction over plain values returns.
+    Gap to ⟦full⟧ C02.4: slice paths only (covered by harness/c02oracle). -/
 theorem modify_refines_partial : modify_refines_statement := by
-  intro q qv hq habs ps v f r hv h
-  exact (modifyAll_sound q qv hq habs ps v [] f r (inv_empty v f hv) h).1
+  intro q qv hq habs hqwf ps v f r hv hf hw h
+  exact modifyFull_sound q qv hq habs hqwf ps v f hv hf hw r h
+
+/-- the update-only fragment (every path gets an output), without the hypotheses on placeholders and
+    key order that only the final `delpaths` needs -/
+theorem modify_refines_updates_only (q : T → Nat → T × Nat) (qv : JV → JV) (hq : QOK q)
+    (habs : ∀ x f, abs (q x f).1 = qv (abs x)) (ps : List Path) (v : T) (f : Nat) (r : T × List Nat × Nat)
+    (hv : ∀ j ∈ v.ids, j < f) (h : modifyAll q ps (v, [], f) = some r) :
+    modifyV qv ps (abs v) = some (abs r.1) :=
+  (modifyAll_sound q qv hq habs ps v [] f r (inv_empty v f hv) h).1
 
 /-- the same from any state satisfying the invariant, with the invariant re-established at the end -/
 theorem modify_refines_from_invariant (q : T → Nat → T × Nat) (qv : JV → JV) (hq : QOK q)
@@ -207,6 +219,38 @@ theorem dup_ok : QOK dup := by
   · exact Or.inr ⟨Nat.le_refl _, Nat.lt_succ_self _⟩
   · exact Or.inl hj
   · exact Or.inl hj
+
+/-- the hypotheses of `upd_unobservable`, `release_establishes` and `invariant_preserved` are satisfiable with
+    owned cells present: the owned array 5 holding the owned object 6 and a shared object 1 -/
+example : Inv [5, 6] 10 (.node 5 false 2 [([], .node 6 true 0 [([97], T.null)]), ([], .node 1 true 0 [])]) where
+  uniq := by intro a ha; simp at ha; rcases ha with rfl | rfl <;> simp [T.ids, idsK, T.null]
+  top := by simp [tc, tcK, T.null, idsK]
+  hv := by intro j hj; simp [T.ids, idsK, T.null] at hj; omega
+  hA := by intro a ha; simp at ha; omega
+
+example : (release [5, 6] (.node 5 false 2 [([], .node 6 true 0 [([97], T.null)]), ([], .node 1 true 0 [])])) = [] := by rfl
+
+/-- an update query that is `empty` on `null` and duplicates everything else satisfies `QOK'` -/
+example : QOK' (fun x f => match x with | .leaf .null => none | _ => some (dup x f)) := by
+  intro x f n f1 h
+  have hd : dup x f = (n, f1) := by
+    cases x with
+    | leaf s => cases s <;> simp_all
+    | hole => simp_all
+    | node id o c ks => simp_all
+  have := dup_ok x f
+  rw [hd] at this
+  refine ⟨this.1, this.2, ?_⟩
+  intro hx
+  have hn : n = .node f false 2 [([], x), ([], x)] := by simp only [dup, Prod.mk.injEq] at hd; exact hd.1.symm
+  rw [hn]
+  simp [holeFree, holeFreeK, hx]
+
+/-- `[false,null,true] | (.[0], .[1]) |= empty` on the model: both paths are collected and deleted at the end,
+    against the original indices -/
+example : (modifyFull (fun _ _ => none) [[.idx 0], [.idx 1]]
+    (.node 0 false 3 [([], .leaf (.bool false)), ([], T.null), ([], .leaf (.bool true))]) 10).map abs =
+    some (.arr [.bool true]) := by rfl
 
 /-- D5's witness `[[null]] | (.[0][0], .[0], .[0][0][0]) |= [., .]` on the model of the FIXED code gives
     the value of the defining reduction, `[[[[[null,null],[null,null]]],[[null,null]]]]`. -/
